@@ -46,12 +46,12 @@ def one_program(ctx, idx, nvec):
         facts, obs, st = res['facts'], res['obs'], res['stats']
         ctx.count('probes', 'joined', st['joined'])
         ctx.count('probes', 'unjoined', st['unjoined'])
-        for _p, k, _K in facts:
-            ctx.count('facts_by_kind', c01.KIND_NAMES[k])
+        for fct in facts:
+            ctx.count('facts_by_kind', c01.KIND_NAMES[fct[1]])
         ctx.count('executions', 'clean', obs.ok_runs)
         ctx.count('executions', 'discarded', obs.discarded)
-        for (pid, kidx, K), hits in res['hit'].items():
-            ctx.count('facts_hit_by_kind', c01.KIND_NAMES[kidx])
+        for fk, hits in res['hit'].items():
+            ctx.count('facts_hit_by_kind', c01.KIND_NAMES[fk[1]])
             ctx.count('fact_hits_total', 'observations', hits)
         for pid, kidx, K, bad, vec, viol, hits, dsc in res['viols']:
             line, col = prog.probes[pid][0], prog.probes[pid][1]
